@@ -33,6 +33,10 @@ class HarnessError(BaseException):
     """The harness/shim itself is wrong (cross-validation mismatch, ...)."""
 
 
+def _opens_scope(d):
+    return d is True or d is False or (isinstance(d, tuple) and d[0] == 'c')
+
+
 class Engine:
     cur = None
 
@@ -47,6 +51,8 @@ class Engine:
         self.hash_ints = ()      # candidate constants for SymInt.__hash__
         self.hash_bytes = ()
         self.hash_strs = ()
+        self.index_limit = None  # C08: sizes derived from input may not exceed this
+        self.on_large_index = None
         self.last = []           # decisions of the previous path (solver scopes 1..len)
         self.base_done = False
         self.begin(prefix)
@@ -55,15 +61,16 @@ class Engine:
         """start a new path; keeps the solver scopes shared with the previous path"""
         prefix = list(prefix)
         shared = 0
-        n = min(_len(prefix), _len(self.last))
+        n = min(_len(prefix) - 1, _len(self.last))
         while shared < n and prefix[shared] == self.last[shared]:
             shared += 1
-        # a concretisation alternative (chosen None) re-adds its exclusions: never shared
+        # scopes are opened only by decisions that add a constraint (forks)
+        target = sum(1 for d in self.last[:shared] if _opens_scope(d))
         depth = self.solver.num_scopes()
-        if shared > depth:
-            shared = depth
-        if depth > shared:
-            self.solver.pop(depth - shared)
+        if depth < target:
+            shared, target = 0, 0
+        if depth > target:
+            self.solver.pop(depth - target)
         self.shared = shared
         self.prefix = prefix
         self.decisions = []
@@ -72,18 +79,21 @@ class Engine:
         self.model = None
         self.vars = {}
         self.registry = {}
+        self.limited = set()
         self.path_checks = 0
         self.path_solver_time = 0.0
 
     def end(self):
         self.base_done = True
         self.last = list(self.decisions)
-        # scopes == number of decisions made on this path
+        want = sum(1 for d in self.last if _opens_scope(d))
         d = self.solver.num_scopes()
-        if d > _len(self.last):
-            self.solver.pop(d - _len(self.last))
-        elif d < _len(self.last):
-            self.last = self.last[:d]
+        if d > want:
+            self.solver.pop(d - want)
+        elif d < want:
+            # cannot happen; be safe: forget sharing
+            self.last = []
+            self.solver.pop(d)
 
     # -- variables ---------------------------------------------------------
     def fresh(self, name, bits=None):
@@ -110,7 +120,8 @@ class Engine:
         elif k <= self.shared:
             return
         self.solver.add(cond)
-        self.model = None
+        if self.model is not None and self._model_says(cond) is not True:
+            self.model = None
 
     # -- solver ------------------------------------------------------------
     def _check(self, *conds):
@@ -150,7 +161,9 @@ class Engine:
         return None
 
     def branch(self, cond):
-        """Decide a z3 Bool on this path, forking when both sides are feasible."""
+        """Decide a z3 Bool on this path, forking when both sides are feasible.
+        Decision items: True/False = fork (constraint added in a new solver scope);
+        'T'/'F' = the other side is infeasible (implied by the path condition, nothing added)."""
         if cond is True or cond is False:
             return cond
         cond = z3.simplify(cond)
@@ -161,14 +174,17 @@ class Engine:
         i = _len(self.decisions)
         if i < _len(self.prefix):
             d = self.prefix[i]
-            if d is not True and d is not False:
-                raise HarnessError('non-deterministic harness: decision %d is not a branch' % i)
-            self.decisions.append(d)
-            if i >= self.shared:
-                self.solver.push()
-                self.solver.add(cond if d else z3.Not(cond))
-            self.model = None
-            return d
+            if d is True or d is False:
+                self.decisions.append(d)
+                if i >= self.shared:
+                    self.solver.push()
+                    self.solver.add(cond if d else z3.Not(cond))
+                    self.model = None
+                return d
+            if d == 'T' or d == 'F':
+                self.decisions.append(d)
+                return d == 'T'
+            raise HarnessError('non-deterministic harness: decision %d is not a branch' % i)
         ms = self._model_says(cond)
         if ms is True:
             mt = self.model
@@ -181,38 +197,60 @@ class Engine:
             mf = self._check(z3.Not(cond))
         t, f = mt is not None, mf is not None
         if t and f:
-            d = True
             self.forks.append((i, False))
-        elif t:
-            d = True
-        elif f:
-            d = False
-        else:
-            raise Inconclusive('infeasible path condition')
-        self.decisions.append(d)
-        self.solver.push()
-        self.solver.add(cond if d else z3.Not(cond))
-        self.model = mt if d else mf
-        return d
+            self.decisions.append(True)
+            self.solver.push()
+            self.solver.add(cond)
+            self.model = mt
+            return True
+        if t:
+            self.decisions.append('T')
+            self.model = mt
+            return True
+        if f:
+            self.decisions.append('F')
+            self.model = mf
+            return False
+        raise Inconclusive('infeasible path condition')
 
     def concretize(self, expr, signed=True):
-        """fork-enumerate the feasible values of a bit-vector expression"""
+        """fork-enumerate the feasible values of a bit-vector expression.
+        Decision items: ('c', excluded, value) = fork among several feasible values;
+        ('d', value) = the value is determined by the path condition (nothing added)."""
         expr = z3.simplify(expr)
         if z3.is_bv_value(expr):
             return expr.as_signed_long() if signed else expr.as_long()
         i = _len(self.decisions)
         excluded = ()
+        if self.index_limit is not None and expr.size() > self.index_limit.bit_length() + 1:
+            # allocation obligation: can a size/index/shift derived from the input exceed the
+            # limit?  A satisfiable query is a candidate (replayed under resource limits); the
+            # exploration itself continues below the limit.
+            key = expr.get_id()
+            if key not in self.limited:
+                self.limited.add(key)
+                big = (expr > self.index_limit) if signed else z3.UGT(expr, self.index_limit)
+                if i >= _len(self.prefix) and self.on_large_index is not None:
+                    m = self._check(big)
+                    if m is not None:
+                        self.on_large_index(expr, m)
+                self.assume(z3.Not(big))
         if i < _len(self.prefix):
             item = self.prefix[i]
-            if not (isinstance(item, tuple) and item[0] == 'c'):
+            if not (isinstance(item, tuple) and item[0] in ('c', 'd')):
                 raise HarnessError('non-deterministic harness: decision %d is not a concretisation' % i)
+            if item[0] == 'd':
+                self.decisions.append(item)
+                return self._as_py(item[1], expr.size(), signed)
             excluded, chosen = item[1], item[2]
             if chosen is not None:
                 self.decisions.append(item)
                 if i >= self.shared:
                     self.solver.push()
+                    for x in excluded:
+                        self.solver.add(expr != x)
                     self.solver.add(expr == chosen)
-                self.model = None
+                    self.model = None
                 return self._as_py(chosen, expr.size(), signed)
             # alternative: a fresh value outside `excluded` (always the last prefix item)
             self.solver.push()
@@ -224,16 +262,22 @@ class Engine:
                 self.solver.pop()
                 raise DeadPath()
             self.model = m
-            pushed = True
-        else:
-            self.solver.push()
-            pushed = True
+            v = m.eval(expr, model_completion=True).as_long()
+            m2 = self._check(expr != v)
+            if m2 is not None:
+                self.forks.append((i, ('c', tuple(excluded) + (v,), None)))
+            self.decisions.append(('c', tuple(excluded), v))
+            self.solver.add(expr == v)
+            return self._as_py(v, expr.size(), signed)
         m = self.get_model()
         v = m.eval(expr, model_completion=True).as_long()
-        m2 = self._check(expr != v)      # exclusions are already in this scope
-        if m2 is not None:
-            self.forks.append((i, ('c', tuple(excluded) + (v,), None)))
-        self.decisions.append(('c', tuple(excluded), v))
+        m2 = self._check(expr != v)
+        if m2 is None:
+            self.decisions.append(('d', v))
+            return self._as_py(v, expr.size(), signed)
+        self.forks.append((i, ('c', (v,), None)))
+        self.decisions.append(('c', (), v))
+        self.solver.push()
         self.solver.add(expr == v)
         return self._as_py(v, expr.size(), signed)
 
